@@ -8,42 +8,66 @@ missing axis, C17) — is an explicit `panic` / `diverges` outcome.  "No panic" 
 Tie to the code: `harness/src/c06.rs`, profile C12 — structurally mutated batches under every plugin
 configuration, each run in a forked child with an alarm and an address-space limit.
 
-Proved in full, for every list of JSON values, every plugin list of the model (grid search, inject in both
-modes, numeric / categorical load balancer, table plugins with arbitrary recorded effects), every parallelism
-(0 included), both persistence policies, every `respond`:
-* `never_panics` — `run` returns (`Ok` or the whole-batch `Err` of parallelism 0), never `panic` / `diverges`;
-* `returns_responses` — for parallelism ≥ 1 it is always `Ok`;
+SCOPE.  What is proved is the batch pipeline AROUND the single-query function.  `run_single_query` (the search,
+the `InputJsonExtensions` getters it uses, the origin / destination guards of the search wrappers, the cost /
+state / traversal models, every output plugin incl. `construct_route_output`) is the parameter `respond`, and the
+r-tree matchers and the haversine load balancer are recorded tables (`Plugin.table`): both are total by type, so
+a panic inside them cannot be expressed in `runO`, and `never_panics_partial` says nothing about them.
+`run_returns_iff_single_query_returns` (over `runRO`, the single-query function with outcomes) states exactly
+what the pipeline adds: for parallelism ≥ 1 the call returns iff the single-query function returns on every query
+that reaches the search.  That the real single-query function and the real matchers return on the input classes
+the property names is evidenced by the forked differential run (per-class counters `input_class_*` in the
+evidence; corpus `corpus_input_classes`) and by theorems of the properties that own those pieces:
+
+| input class of the property | where it is decided | cited theorems (not re-proved here) |
+|---|---|---|
+| empty batch, wrong JSON type, degenerate grid section, plugin fields | this file / C17 | `empty_batch`, `non_object_query_echoed`, `batch_of_wrong_json_type`, `grid_search_fuel_suffices`, `plugins_never_panic` |
+| missing / ill-typed search fields (`origin_vertex`, …) | getters, inside `respond` | `C16.id_reader_errors_name_their_field`, `C16.coordinate_readers_agree` (the getters are total; errors are values) |
+| out-of-range coordinates | r-tree matchers (`Plugin.table`) | `C16.vertex_beyond_tolerance_is_error`, `C16.vertex_destination_beyond_tolerance_is_error`, `C16.edge_beyond_tolerance_is_error` |
+| out-of-range ids | search wrappers, inside `respond` | harness only (oracle `search/unknown-origin-accepted`, fix 7b74719); `C05.config_calls_answer` for ids in the graph |
+| identical origin and destination | search + traversal output plugin | `C20.empty_route_is_error_response` |
+| unknown vehicle name | energy traversal service | `C08.select_rejected` |
+| zero / unknown / bad weights | cost model service | `C07.service_build_returns`, `C07.service_build_unknown_weights` |
+| vehicle parameters, termination section | frontier / termination builders | `C04.vehicle_parameters_refusals`, `C10.builder_total` |
+
+Proved, for every list of JSON values, every plugin list of the model (grid search, inject in both modes,
+numeric / categorical load balancer, user-defined plugins, table plugins with arbitrary recorded effects), every
+TOTAL `respond`, the per-run configuration already parsed and `ResponseSink::None` (`runO`):
+* `never_panics_partial` — every parallelism (0 included), both policies: `runO` is `Ok` or the whole-batch `Err`
+  of parallelism 0, never `panic` / `diverges` (the four modelled sites);
+* `returns_responses`, `whole_batch_error_iff` — for parallelism ≥ 1 it is `Ok`; the other whole-call `Err` exits
+  of the real `run` are in the model with entry points: `call_never_panics`, `call_error_cases`;
 * `empty_batch` — `[]` returns `[]`;
-* `every_query_accounted_for` — each query contributes its expanded queries' responses or one error response,
-  and the other queries are served all the same.
+* `every_query_accounted_for` — parallelism ≥ 1: under the persist policy each query contributes its expanded
+  queries' responses or one error response; under the discard policy exactly its input-stage error response.
 The repaired defects stay visible as statements about the unguarded operations
 (`par_chunks_zero_panics`, `inject_unguarded_assignment_panics`, C17's `unguarded_*`).
 
-Repaired, now positive theorems (the witnesses stay in the harness corpus under their oracle keys):
-* `every_query_answered` — every JSON value offered as a query gets at least one response (`[]` used to be
-  flattened away, key `pipeline/query-unanswered`);
-* `non_object_query_echoed`, `error_echoes_request` — every error response of the input stage echoes the
-  request: a non-object query verbatim, otherwise the (expanded) query on which a plugin failed; never the
-  placeholder `{"error":"unable to display query"}` (key `pipeline/request-not-echoed`).
-`every_query_answered` for plugins that map objects to objects or non-empty arrays of objects — proved for grid search, inject,
-load balancer and the user-defined split / fail-on-marker plugins (`C06.builtin_plugins_keep_objects`,
-`C06.user_split_and_fail_keep_objects`), false of the user-defined invariant breaker
-(`invariant_breaker_is_answered_with_the_query`: it erases a query it answers with `[]`), a property of the
-recorded data for table plugins.  `error_echoes_request` needs no hypothesis any more (fix 755333a: an invariant
-error names the original query).
+Answering and echoing (input stage):
+* `every_query_answered_partial` — hypothesis `ObjOp`: every plugin maps an object to an object or a non-empty
+  array of objects.  Proved for grid search, inject, custom load balancer, user split / fail
+  (`every_query_answered_builtin_partial`); for a recorded table plugin — all map-matching configurations — when
+  its recorded results are objects (`table_plugin_keeps_objects`; checked on every recorded table by the harness,
+  key `table/non-object-result`); false for a plugin that answers `[]`
+  (`table_plugin_can_erase_a_query_counterexample`, `invariant_breaker_is_answered_with_the_query`);
+* `non_object_query_echoed`, `error_echoes_request` (no hypothesis) — a non-object query is echoed verbatim; a
+  plugin-broken invariant names the original query (fix 755333a); otherwise the request is the expanded query on
+  which a plugin failed AS THAT PLUGIN LEFT IT: unchanged for the model's own plugins (`own_plugins_fail_clean`),
+  the recorded value for a table plugin (the vertex matcher that has written `origin_vertex` before the
+  destination fails).  Echo by the search stage is C06 (`single_query_echoes_request`, premise `hr`).
 
 Where the code still deviates (finding with counterexample; key as in the harness oracle):
 * `pipeline/sibling-responses-lost` — `C06.sibling_responses_lost_counterexample`, restated here: "the
   remaining queries are served" fails for the siblings of a failing expanded query.
-Outside the model (the single-query function is a parameter): the harness oracle checks that out-of-range
-origin / destination ids are answered with an error (`search/unknown-origin-accepted`, repaired by 7b74719).
 
 Entry points and builders: `call_never_panics` (every JSON value, every entry, every per-run configuration and
-sink), `batch_of_wrong_json_type` (which values are refused as a batch), `inject_builder_never_panics` /
+sink), `call_error_cases`, `batch_of_wrong_json_type`, `inject_builder_never_panics` /
 `inject_builder_toml_is_error` (fix bdada7d: the `toml` format was `todo!()`), `inject_builder_builds_the_plugin`.
 
-Partial: stack depth, allocation failure, the time a search takes on a huge network, the internals of
-serde_json / rstar / rayon are not modelled.
+Modelled rather than verified / not modelled: the single-query function and the opaque plugins (above); abort
+(allocation failure — reachable from one small query: a grid section with 12 axes of 10 options asks for 10^12
+queries; stack depth); the time a search takes; the two "could not build progress bar" exits, a poisoned sink
+mutex, the `Combined` output policy; the internals of serde_json / rstar / rayon / kdam; real thread interleavings.
 -/
 import Compass.Props.C06
 import Compass.Proofs.BatchEntry
@@ -113,18 +137,81 @@ theorem load_balancing_never_panics {α : Type} (W : WOps α) (p : Nat) (qs : Li
 
 /-! ## the whole call -/
 
-/-- **No batch makes `run` panic or diverge**: for every list of JSON values, every plugin configuration of
-the model, every parallelism (configured and per run, 0 included), both policies, every weight arithmetic and
-every single-query function -/
-theorem never_panics {α : Type} (W : WOps α) (cfg : Config) (respond : Json → Json) (batch : List Json) :
-    ∃ r, runO W cfg respond batch = .ok r := by
+/- Full statement (the property): for every JSON batch, every plugin and search configuration, the real
+`CompassApp::run` — input plugins incl. the r-tree matchers, `run_single_query` (search + output plugins) on
+every expanded query, the sink — neither panics nor fails to return.  What is proved here is the part of it that
+lies in the batch pipeline AROUND the single-query function; the single-query function and the opaque plugins
+enter the model as total functions (`respond : Json → Json`, `Plugin.table`), so a panic inside them is not even
+expressible in `runO`.  `run_returns_iff_single_query_returns` below says exactly what the pipeline adds. -/
+
+/-- **The batch pipeline around the single-query function never panics** (`_partial`: for every TOTAL
+single-query function `respond` and every plugin list of the model, whose table plugins are total by
+construction): chunking, `apply_input_plugins` over grid search / inject / load balancer / user plugins,
+partition, `apply_load_balancing_policy`, assembly — for every list of JSON values, every parallelism
+(configured and per run, 0 included), both policies, every weight arithmetic.  The panics it excludes are the
+four modelled sites `par_chunks(0)`, `value[key] = …` on a non-object, bin indexing, `MultiSet` on a degenerate
+axis.  It says nothing about a panic inside `run_single_query` or inside an r-tree / haversine plugin. -/
+theorem never_panics_partial {α : Type} (W : WOps α) (cfg : Config) (respond : Json → Json)
+    (batch : List Json) : ∃ r, runO W cfg respond batch = .ok r := by
   rw [runO_eq]
   obtain ⟨r, h⟩ := load_balancing_never_panics W cfg.parallelism (processed cfg.plugins batch)
   rw [h]
   cases r <;> exact ⟨_, rfl⟩
 
-/-- for parallelism ≥ 1 the call returns responses — never the whole-batch `Err` (fix 1eb0c7f: an ill-typed
-weight estimate used to produce one) -/
+/-- **What the pipeline adds to the single-query function, exactly**: over a single-query function WITH
+outcomes (`respondO : Json → Outcome Json` — it may panic, it may not return), for parallelism `≥ 1` the call
+returns if and only if the single-query function returns on every query that reaches the search.  So "no batch
+makes the application panic or run without bound" is equivalent to "`run_single_query` returns on every
+expanded query of every batch" — which is NOT proved here: it is evidenced by the forked differential run
+(every case in a child process with an alarm and a memory limit) and by the theorems of the properties that own
+the pieces of the single-query function (table in the header). -/
+theorem run_returns_iff_single_query_returns {α : Type} (W : WOps α) (cfg : Config)
+    (respondO : Json → Outcome Json) (batch : List Json) (hp : 1 ≤ cfg.parallelism) :
+    (∃ r, runRO W cfg respondO batch = .ok r) ↔
+      ∀ q ∈ processed cfg.plugins batch, ∃ v, respondO q = .ok v := by
+  obtain ⟨bins, hb, hperm, _, hnil⟩ := balanceO_spec W cfg.parallelism hp (processed cfg.plugins batch)
+  have hmem : ∀ q, q ∈ bins.flatten ↔ q ∈ processed cfg.plugins batch := fun q => hperm.mem_iff
+  unfold runRO
+  rw [searchedO_eq, hb]
+  simp only
+  by_cases he : bins.isEmpty = true
+  · have hb0 : bins = [] := List.isEmpty_iff.mp he
+    have : processed cfg.plugins batch = [] := by
+      have := hperm; rw [hb0] at this; simpa using this.symm
+    simp [he, this]
+  · simp only [he, Bool.false_eq_true, if_false]
+    rw [← (show (∀ q ∈ bins.flatten, ∃ v, respondO q = .ok v) ↔ _ from
+      ⟨fun h q hq => h q ((hmem q).mpr hq), fun h q hq => h q ((hmem q).mp hq)⟩)]
+    rw [← respondAllO_ok_iff]
+    cases respondAllO respondO bins.flatten <;> simp
+
+/-- with a total single-query function the model with outcomes is the model the other theorems are about -/
+theorem run_with_total_single_query {α : Type} (W : WOps α) (cfg : Config) (respond : Json → Json)
+    (batch : List Json) :
+    runRO W cfg (fun q => .ok (respond q)) batch = runO W cfg respond batch := by
+  unfold runRO
+  rw [searchedO_eq, runO_eq]
+  cases balanceO W cfg.parallelism (processed cfg.plugins batch) with
+  | panic s => rfl
+  | diverges => rfl
+  | ok r =>
+    cases r with
+    | error e => rfl
+    | ok bins =>
+      simp only [respondAllO_total, assemble]
+      by_cases he : bins.isEmpty = true
+      · simp [he]
+      · have : (bins.map (fun b => b.map respond)).flatten = bins.flatten.map respond := by
+          induction bins with
+          | nil => rfl
+          | cons b bs ih => simp [List.flatten_cons]
+        simp only [he, Bool.false_eq_true, if_false, this]
+
+/-- for parallelism ≥ 1 `run` as modelled by `runO` — a parsed per-run configuration, `ResponseSink::None`,
+total `respond` — returns responses, never the whole-batch `Err` (fix 1eb0c7f: an ill-typed weight estimate
+used to produce one).  The other whole-batch `?` exits of the real `run` (per-run configuration that does not
+deserialize, sink that cannot be built, failed write) are in the model with entry points: `call_error_cases`;
+the two "could not build progress bar" exits are not modelled (no bar format is ever set) -/
 theorem returns_responses {α : Type} (W : WOps α) (cfg : Config) (respond : Json → Json)
     (batch : List Json) (hp : 1 ≤ cfg.parallelism) :
     ∃ out, runO W cfg respond batch = .ok (.ok out) := by
@@ -156,37 +243,78 @@ theorem empty_batch {α : Type} (W : WOps α) (cfg : Config) (respond : Json →
   rw [runO_eq]
   simp [processed, oks, errs, balanceO, assemble]
 
-/-- **Every query is accounted for and the others are served**: the responses of a batch are, as a multiset,
-`⨄_q answer q`; a query whose input processing fails contributes exactly one response, `{"request": …,
-"error": …}`, and the answers of the queries around it are unchanged -/
+/-- **Every query is accounted for and the others are served** — for parallelism `≥ 1` (parallelism 0 is the
+whole-batch `Err` of `whole_batch_error_iff`: nothing is served), `ResponseSink::None`, total `respond`.  Under
+the persist policy the responses are, as a multiset, `⨄_q answer q`; under the discard policy exactly the
+error responses of the input stage, `⨄_q answerErr q` (the search responses exist only in the sink).  A query
+whose input processing fails contributes exactly one response, `{"request": …, "error": …}`, under both
+policies, and the answers of the queries around it are unchanged -/
 theorem every_query_accounted_for {α : Type} (W : WOps α) (cfg : Config) (respond : Json → Json)
-    (pre post : List Json) (q : Json) (hp : 1 ≤ cfg.parallelism) (hpers : cfg.persist = true) :
+    (pre post : List Json) (q : Json) (hp : 1 ≤ cfg.parallelism) :
     ∃ out, runO W cfg respond (pre ++ q :: post) = .ok (.ok out) ∧
-      out.Perm (answers cfg.plugins respond pre ++ answer cfg.plugins respond q
-                ++ answers cfg.plugins respond post) ∧
+      out.Perm (if cfg.persist then
+          answers cfg.plugins respond pre ++ answer cfg.plugins respond q ++ answers cfg.plugins respond post
+        else answersErr cfg.plugins pre ++ answerErr cfg.plugins q ++ answersErr cfg.plugins post) ∧
       (∀ e, prepT cfg.plugins q = .error e →
-        answer cfg.plugins respond q = [e] ∧
+        answer cfg.plugins respond q = [e] ∧ answerErr cfg.plugins q = [e] ∧
         ∃ req kind, e = .obj [("request", req), ("error", .str kind)]) := by
   obtain ⟨out, h1, h2⟩ := C06.run_multiset W cfg respond (pre ++ q :: post) hp
   refine ⟨out, h1, ?_, ?_⟩
-  · rw [hpers] at h2
-    simpa [answers] using h2
+  · cases hpers : cfg.persist with
+    | true => rw [hpers] at h2; simpa [answers] using h2
+    | false => rw [hpers] at h2; simpa [answersErr] using h2
   · intro e he
-    exact ⟨by simp [answer, he], C06.error_response_shape cfg.plugins q e he⟩
+    exact ⟨by simp [answer, he], by simp [answerErr, he], C06.error_response_shape cfg.plugins q e he⟩
 
 /-! ## every query is answered, every error response echoes the request -/
 
-/-- **Every query is answered**: whatever JSON value is offered (number, string, `null`, array, `[]`, object
-with any fields) it gets at least one response -/
-theorem every_query_answered (plugins : List Plugin) (hw : ∀ p ∈ plugins, ObjOp (processT p))
+/- Full statement: for every plugin configuration, every JSON value offered as a query gets at least one
+response.  False when a plugin answers with the empty array (`table_plugin_can_erase_a_query_counterexample`);
+proved under `ObjOp` (every plugin maps an object to an object or a non-empty array of objects), which holds of
+grid search, inject, the custom load balancer and the user split / fail plugins, and of a recorded table plugin
+— vertex / edge r-tree matching, haversine load balancer — when its recorded results are objects
+(`table_plugin_keeps_objects`; checked on every recorded table by the harness, key `table/non-object-result`). -/
+
+/-- **Every query is answered** (`_partial`: plugins that keep objects): whatever JSON value is offered (number,
+string, `null`, array, `[]`, object with any fields) it gets at least one response -/
+theorem every_query_answered_partial (plugins : List Plugin) (hw : ∀ p ∈ plugins, ObjOp (processT p))
     (respond : Json → Json) (q : Json) : answer plugins respond q ≠ [] :=
-  C06.every_query_answered plugins hw respond q
+  C06.every_query_answered_partial plugins hw respond q
+
+/-- a recorded table plugin (r-tree matcher, haversine load balancer) keeps objects when every recorded result
+is an object — which the real matchers' results are (they only insert fields) -/
+theorem table_plugin_keeps_objects (t : List (String × TableEntry))
+    (h : ∀ k v, (k, TableEntry.ok v) ∈ t → v.isObject = true) : ObjOp (processT (.table t)) := by
+  intro q r _ hr
+  simp only [processT] at hr
+  cases hl : lookupStr t q.toCompact with
+  | none => simp [hl] at hr
+  | some e =>
+    cases e with
+    | err k l => simp [hl] at hr
+    | ok v =>
+      simp only [hl, Except.ok.injEq] at hr
+      subst hr
+      left
+      unfold lookupStr at hl
+      cases hf : t.find? (fun p => p.1 == q.toCompact) with
+      | none => simp [hf] at hl
+      | some p =>
+        simp only [hf, Option.some.injEq] at hl
+        have hm := List.mem_of_find?_eq_some hf
+        exact h p.1 v (by rw [← hl]; exact hm)
+
+/-- without the hypothesis the statement is false: a (table) plugin that answers with the empty array erases
+the query — no response at all -/
+theorem table_plugin_can_erase_a_query_counterexample (respond : Json → Json) :
+    answer [.table [("{\"a\":null}", .ok (.arr []))]] respond (.obj [("a", .null)]) = [] := by
+  rfl
 
 /-- … in particular under every configuration made of grid search, inject, load balancer and the user-defined
 split / fail-on-marker plugins -/
-theorem every_query_answered_builtin (plugins : List Plugin) (hb : ∀ p ∈ plugins, p.wellBehaved = true)
+theorem every_query_answered_builtin_partial (plugins : List Plugin) (hb : ∀ p ∈ plugins, p.wellBehaved = true)
     (respond : Json → Json) (q : Json) : answer plugins respond q ≠ [] :=
-  C06.every_query_answered plugins (fun p hp => processT_objOp p (hb p hp)) respond q
+  C06.every_query_answered_partial plugins (fun p hp => processT_objOp p (hb p hp)) respond q
 
 /-- a query that fails input processing is answered with exactly one response, its error response -/
 theorem failing_query_answered (plugins : List Plugin) (respond : Json → Json) (q e : Json)
@@ -210,6 +338,12 @@ theorem error_echoes_request (plugins : List Plugin) (q e : Json) (h : prepT plu
       e = .obj [("request", req), ("error", .str pe.kind)] ∧ (req = pe.left.getD x ∨ req = q)) ∨
     (q.isObject = true ∧ e = .obj [("request", q), ("error", .str invariantKind)]) :=
   C06.error_echoes_request plugins q e h
+
+-- non-vacuity of the echo group: the no-overwrite inject plugin rejects an object that already has the key,
+-- and the error response carries that object
+example : prepT [.inject "k" .null false] (.obj [("k", .bool true)])
+    = .error (.obj [("request", .obj [("k", .bool true)]), ("error", .str "InputPluginFailed")]) := by
+  rfl
 
 /-- an object query rejected by the first plugin is echoed verbatim (grid search, inject, load balancer: they
 fail before touching the query) -/
@@ -358,6 +492,61 @@ theorem call_never_panics {α : Type} (W : WOps α) (env : String → Bool × Bo
   cases getQueries v with
   | none => exact ⟨_, rfl⟩
   | some batch => exact hcall batch
+
+/-- **Every whole-call `Err` of the modelled call, and when**: a per-run value that does not deserialize; a sink
+whose file cannot be opened or whose flush rate is `≤ 0`; parallelism 0 with a query to run; a failed write with
+something to write.  (Not modelled: the two "could not build progress bar" exits — no bar format is ever set —
+and a poisoned sink mutex.) -/
+theorem call_error_cases {α : Type} (W : WOps α) (env : String → Bool × Bool) (app : App)
+    (runCfg : Option Json) (respond : Json → Json) (batch : List Json) (e : CallErr)
+    (h : callO W env app runCfg respond batch = .ok (.error e)) :
+    (parseRunConfig env runCfg = none ∧ e = .runConfig) ∨
+    (∃ o, parseRunConfig env runCfg = some o ∧
+      (buildSink (o.policy.getD app.policy) = .error e ∨
+       (e = .app .minBinEmpty ∧ (app.config o).parallelism = 0) ∨
+       (e = .sinkWrite ∧ sinkFails (o.policy.getD app.policy) = true))) := by
+  unfold callO at h
+  cases hp : parseRunConfig env runCfg with
+  | none => left; simp [hp] at h; exact ⟨rfl, h.symm⟩
+  | some o =>
+    right
+    refine ⟨o, rfl, ?_⟩
+    simp only [hp] at h
+    cases hb : buildSink (o.policy.getD app.policy) with
+    | error e' => simp [hb] at h; left; rw [h]
+    | ok u =>
+      right
+      simp only [hb] at h
+      rw [callCoreO_eq] at h
+      by_cases hpar : 1 ≤ (app.config o).parallelism
+      · obtain ⟨bins, hbal, _⟩ := balanceO_spec W (app.config o).parallelism hpar
+          (processed (app.config o).plugins batch)
+        rw [hbal] at h
+        simp only at h
+        right
+        by_cases hs : sinkFails (o.policy.getD app.policy) = true
+        · refine ⟨?_, hs⟩
+          split at h
+          · simpa using h.symm
+          · split at h
+            · simp at h
+            · simp [hs] at h; exact h.symm
+        · simp [hs] at h
+          split at h <;> simp at h
+      · have h0 : (app.config o).parallelism = 0 := by omega
+        rw [h0, balanceO_zero] at h
+        by_cases hq : (processed (app.config o).plugins batch).isEmpty = true
+        · simp only [hq, if_true] at h
+          right
+          by_cases hs : sinkFails (o.policy.getD app.policy) = true
+          · refine ⟨?_, hs⟩
+            split at h
+            · simpa using h.symm
+            · simp at h
+          · simp [hs] at h
+        · simp only [hq, Bool.false_eq_true, if_false, Outcome.ok.injEq, Except.error.injEq] at h
+          left
+          exact ⟨h.symm, h0⟩
 
 /-- a value that is not a batch — a number, a string, `null`, an object whose `queries` is not an array — is
 refused with an error for the call; every array and every other object is run -/
